@@ -31,6 +31,33 @@ theorem completion_prefix_never_panics (text : Str) (line col : Nat) :
     complPrefix text line col = .ok ((((lines text)[line]?).getD []).take col) :=
   complPrefix_eq text line col
 
+/-- the whole connector-parameter context detection of `get_completions` never panics, for any
+prefix and any character classes -/
+theorem connector_context_never_panics (isWs isWord isAlpha : Char → Bool) (pre : Str) :
+    ∃ b, connectorCtx isWs isWord isAlpha pre = .ok b := by
+  have hb : ∀ after, ∃ b, connectorBranch isWs isWord isAlpha after = .ok b := by
+    intro after
+    unfold connectorBranch
+    rw [afterConnector_eq]
+    split
+    · exact ⟨_, rfl⟩
+    · split
+      · exact ⟨_, rfl⟩
+      · split <;> exact ⟨_, rfl⟩
+  unfold connectorCtx
+  split
+  · exact hb _
+  · split
+    · exact hb _
+    · exact ⟨_, rfl⟩
+
+/-- non-vacuity of the context detection (blank before the connector name, identifier only, a
+second word, `.from(` takes precedence over a later `.to(`) -/
+example : connectorCtx (· == ' ') (fun c => c.isAlphanum || c == '_') Char.isAlpha "s.from( ab, ".toList = .ok true := by decide
+example : connectorCtx (· == ' ') (fun c => c.isAlphanum || c == '_') Char.isAlpha "s.from( ab".toList = .ok true := by decide
+example : connectorCtx (· == ' ') (fun c => c.isAlphanum || c == '_') Char.isAlpha "s.from( ab x".toList = .ok false := by decide
+example : connectorCtx (· == ' ') (fun c => c.isAlphanum || c == '_') Char.isAlpha "s.to(k, a).from(1".toList = .ok false := by decide
+
 /-- completion inside `.from(` / `.to(`: the slice after the connector name is on a char boundary -/
 theorem connector_param_slice_never_panics (isWs isWord : Char → Bool) (after : Str) :
     afterConnector isWs isWord after = .ok ((after.dropWhile isWs).dropWhile isWord) :=
